@@ -209,7 +209,7 @@ func check(c Case) (o diff.Outcome, err error) {
 		return o, lerr
 	}
 	q, names := p.QueryText()
-	got := i.Query(q, names, op.MaxAnswers, int64(200*rr.Stats.Steps+20000))
+	got := i.Query(q, names, op.MaxAnswers, rr.Stats.RealBudget())
 	o.Real = got
 	// termination / error
 	switch {
